@@ -155,7 +155,8 @@ pub fn run(args: &Args) {
                         cell.set_formula("A1&\"x\"");
                         cell.set_formula_result_default(t.clone());
                         feats.insert("formula-cached-text".into());
-                        t
+                        // the setter guesses the kind of the result ("07" becomes the number 7): the field carries the value text the cell then has
+                        cell.get_value().to_string()
                     }
                     4 => {
                         let e = *rng.pick(&["#DIV/0!", "#N/A", "#REF!", "#VALUE!"]);
